@@ -395,7 +395,8 @@ theorem VarInv.destruct_holds {v : Vec} {es : List Elem} (h : VarInv v es) (i j 
   dropRange_holds h.mem_eq (canon_ordered h.lok es h.eok) i j hj v.addr (fun k _ hk => h.addr k (by omega))
 
 /-- **erase(first, last) refines removing a range from the sequence** (memmove path, offset-table locator) -/
-theorem VarInv.eraseRange {v : Vec} (A M B : List Elem) (h : VarInv v (A ++ M ++ B)) (ht : v.trivialReloc = true) :
+theorem VarInv.eraseRange_gen {v : Vec} (A M B : List Elem) (h : VarInv v (A ++ M ++ B))
+    (ht' : B ≠ [] → M ≠ [] → v.trivialReloc = true) :
     VarInv (v.eraseRange A.length (A.length + M.length)) (A ++ B) := by
   have hord := canon_ordered h.lok _ h.eok
   have hlen : (A ++ M ++ B).length = A.length + M.length + B.length := by simp only [List.length_append]
@@ -413,6 +414,7 @@ theorem VarInv.eraseRange {v : Vec} (A M B : List Elem) (h : VarInv v (A ++ M ++
       intro hb; subst hb; simp at hsz; omega
     have hM : 0 < M.length := by omega
     obtain ⟨g0, g1, g2, g3, g4⟩ := erase_geometry (ps := v.ps) A M B hB
+    have ht : v.trivialReloc = true := ht' hB (fun hm => by subst hm; simp at hM)
     rw [eraseRange_var_move v _ _ h.notFixed ht (by omega) hmove.1]
     have hsj := h.slots_eq (A.length + M.length) (by omega)
     have hsi := h.slots_eq A.length (by omega)
@@ -540,6 +542,9 @@ theorem VarInv.eraseRange {v : Vec} (A M B : List Elem) (h : VarInv v (A ++ M ++
           refine ⟨fun hh => hA (by rw [hh]; rfl), ?_⟩
           rw [h.slots_eq A.length (by omega)]
           exact canonOff_at_length A M hM
+
+theorem VarInv.eraseRange {v : Vec} (A M B : List Elem) (h : VarInv v (A ++ M ++ B)) (ht : v.trivialReloc = true) :
+    VarInv (v.eraseRange A.length (A.length + M.length)) (A ++ B) := VarInv.eraseRange_gen A M B h (fun _ _ => ht)
 
 end Cntgs
 
@@ -831,7 +836,8 @@ theorem FixInv.destruct_holds {v : Vec} {es : List Elem} (h : FixInv v es) (i j 
     ∀ x, x ∈ v.destructRange i j ↔ ∃ k, k < es.length ∧ (k < i ∨ j ≤ k) ∧ x = fixRec v.ps v.loc.stride es k :=
   dropRange_holds h.mem_eq (fix_ordered h) i j hj v.addr (fun k _ _ => h.addr k)
 
-theorem FixInv.eraseRange {v : Vec} (A M B : List Elem) (h : FixInv v (A ++ M ++ B)) (ht : v.trivialReloc = true) :
+theorem FixInv.eraseRange_gen {v : Vec} (A M B : List Elem) (h : FixInv v (A ++ M ++ B))
+    (ht' : B ≠ [] → M ≠ [] → v.trivialReloc = true) :
     FixInv (v.eraseRange A.length (A.length + M.length)) (A ++ B) := by
   have hord := fix_ordered h
   have hlen : (A ++ M ++ B).length = A.length + M.length + B.length := by simp only [List.length_append]
@@ -853,7 +859,11 @@ theorem FixInv.eraseRange {v : Vec} (A M B : List Elem) (h : FixInv v (A ++ M ++
     have := getD_append_right' (A ++ M) B k
     simpa [List.length_append] using this.symm
   by_cases hmove : A.length + M.length < v.loc.count ∧ A.length ≠ A.length + M.length
-  · rw [eraseRange_fix_move v _ _ h.isFixed ht (by omega) hmove.1]
+  · have ht : v.trivialReloc = true := by
+      apply ht'
+      · intro hb; subst hb; simp at hcnt; omega
+      · intro hm; subst hm; simp at hmove
+    rw [eraseRange_fix_move v _ _ h.isFixed ht (by omega) hmove.1]
     have hfin : (fixRec v.ps v.loc.stride (A ++ M ++ B) ((A ++ M ++ B).length - 1)).off +
         (fixRec v.ps v.loc.stride (A ++ M ++ B) ((A ++ M ++ B).length - 1)).sz ≤ v.loc.stride * v.loc.count := by
       have hk : (A ++ M ++ B).length - 1 < (A ++ M ++ B).length := by rw [hlen]; omega
@@ -919,5 +929,8 @@ theorem FixInv.eraseRange {v : Vec} (A M B : List Elem) (h : FixInv v (A ++ M ++
           exact ⟨k, hkA, by simp only [fixRec, getD_append_left' A M k hkA]⟩
         · rintro ⟨k, hk, rfl⟩
           exact ⟨k, by omega, Or.inl hk, by simp only [fixRec, getD_append_left' A M k hk]⟩
+
+theorem FixInv.eraseRange {v : Vec} (A M B : List Elem) (h : FixInv v (A ++ M ++ B)) (ht : v.trivialReloc = true) :
+    FixInv (v.eraseRange A.length (A.length + M.length)) (A ++ B) := FixInv.eraseRange_gen A M B h (fun _ _ => ht)
 
 end Cntgs
